@@ -14,6 +14,7 @@ Quick == Tier = "quick"
 
 Common ==
   { <<OctKey(32, "a", NONE, NONE), "HS256">>, <<OctKey(64, "a", NONE, NONE), "HS512">>,
+    <<OctKey(33, "a", NONE, NONE), "HS256">>, <<OctKey(100, "a", NONE, NONE), "HS512">>, <<OctKey(64, "b", NONE, NONE), "HS384">>,   \* longer than the hash output: every octet is key
     <<AsymKey("rsa2048a", 0, NONE, NONE), "RS256">>, <<AsymKey("rsa2048a", 0, NONE, NONE), "PS256">>,
     <<AsymKey("rsa2052a", 0, NONE, NONE), "RS256">>, <<AsymKey("rsa2052a", 0, NONE, NONE), "PS384">>,     \* modulus not a multiple of 8 bits
     <<AsymKey("p256a", 0, NONE, NONE), "ES256">>, <<AsymKey("p384a", 0, NONE, NONE), "ES384">>, <<AsymKey("p521a", 0, NONE, NONE), "ES512">>,
